@@ -50,6 +50,7 @@ func init() { register(c18{}) }
 func (c18) ID() string { return "C18" }
 func (c18) Rule() string {
 	return "each case is a cold child process built with the race detector (GORACE halt_on_error=0, reports counted from the log and de-duplicated by the pair of first library frames): G goroutines start together and run seeded lists of Encode/Decode operations on the SAME registry instances of the 14 codecs, each with its own PixelData and with nil / per-call / one shared GetDefaultParameters() object per codec, plus goroutines on their own low-level objects (jpeg2000.Encoder/Decoder, lossless.Encode/Decode, MQ coder, 5/3 DWT, RCT). Oracles: (1) every result (bytes and error text) equals the result of the same call run alone afterwards; (2) zero race reports; (3) digests of ALL package-level variables of every library package (digest code generated with go/parser into a scratch copy at check time) and reflection digests of the registry codec instances are equal before the storm and after it; (4) measured overlap (operations that ran while another operation was inside the same codec instance) must be > 0 or the case is inconclusive. " +
+		"the RLE codec additionally decodes three foreign (harness-built) colour-by-plane frames of 2^16 pixels and more, two of them with segments longer than their plane (streams the library's encoder never writes). " +
 		"cases: GOMAXPROCS in {1,2,4,16} x parameter mode x seeds. non-trivial: overlap observed and all results compared; distinct = distinct descriptor"
 }
 func (c18) Assumptions() []string {
@@ -87,6 +88,55 @@ type c18Op struct {
 type c18Image struct {
 	W, H, BA, BS, SPP int
 	Frame             []byte
+	// Foreign != nil: a stream the library did not write (harness-built); the operation on this
+	// image is a Decode of it with the frame description below
+	Planar  int
+	Foreign []byte
+}
+
+// c18ForeignRLE builds a valid-but-unusual Annex G frame for a colour-by-plane image of at least
+// 2^16 pixels: literal PackBits packets only, and the segments listed in long carry `extra` more
+// bytes than their plane holds (padding a foreign encoder may leave; decoders tolerate it).
+func c18ForeignRLE(r *gen.Rand, w, h, spp int, long map[int]bool, extra int) c18Image {
+	n := w * h
+	frame := gen.PackN(gen.Content(r, "noise", w, h, spp, 8, 1), 1)
+	var segs [][]byte
+	for k := 0; k < spp; k++ {
+		plane := make([]byte, 0, n+extra)
+		for i := 0; i < n; i++ {
+			plane = append(plane, frame[i*spp+k])
+		}
+		if long[k] {
+			for i := 0; i < extra; i++ {
+				plane = append(plane, byte(0xA0+k+i%7))
+			}
+		}
+		var seg []byte
+		for o := 0; o < len(plane); o += 128 {
+			e := o + 128
+			if e > len(plane) {
+				e = len(plane)
+			}
+			seg = append(seg, byte(e-o-1))
+			seg = append(seg, plane[o:e]...)
+		}
+		if len(seg)%2 == 1 {
+			seg = append(seg, 0)
+		}
+		segs = append(segs, seg)
+	}
+	hdr := make([]byte, 64)
+	put := func(o int, v uint32) { hdr[o], hdr[o+1], hdr[o+2], hdr[o+3] = byte(v), byte(v>>8), byte(v>>16), byte(v>>24) }
+	put(0, uint32(spp))
+	off := uint32(64)
+	out := hdr
+	for k, sg := range segs {
+		put(4+4*k, off)
+		off += uint32(len(sg))
+		out = append(out, sg...)
+	}
+	copy(out[:64], hdr)
+	return c18Image{W: w, H: h, BA: 8, BS: 8, SPP: spp, Planar: 1, Foreign: out}
 }
 
 type stormResult struct {
@@ -114,9 +164,14 @@ func c18Images(r *gen.Rand) map[string][]c18Image {
 			}
 			w, h := 4+r.Intn(28), 4+r.Intn(28)
 			fr := gen.PackN(gen.Content(r, gen.Pick(r, "noise", "smooth", "runs"), w, h, spp, bs, 1), ba/8)
-			out[ts] = append(out[ts], c18Image{w, h, ba, bs, spp, fr})
+			out[ts] = append(out[ts], c18Image{W: w, H: h, BA: ba, BS: bs, SPP: spp, Frame: fr})
 		}
 	}
+	// foreign RLE frames: colour-by-plane, 2^16 pixels and more, exact and over-long segments
+	out["rle"] = append(out["rle"],
+		c18ForeignRLE(r, 256, 256, 3, map[int]bool{0: true}, 300),
+		c18ForeignRLE(r, 300, 257, 3, map[int]bool{0: true, 1: true}, 4000),
+		c18ForeignRLE(r, 256, 256, 3, nil, 0))
 	return out
 }
 
@@ -134,7 +189,7 @@ type callResult struct {
 }
 
 func c18Call(cd dcodec.Codec, im c18Image, encoded []byte, decode bool, params dcodec.Parameters) callResult {
-	info := FrameInfo(im.W, im.H, im.BA, im.BS, im.SPP, 0, 0)
+	info := FrameInfo(im.W, im.H, im.BA, im.BS, im.SPP, 0, im.Planar)
 	dst := NewPD(info)
 	var err error
 	if decode {
@@ -188,7 +243,7 @@ func StormMain(arg string) int {
 	for g := range plans {
 		for i := 0; i < c.Ops; i++ {
 			ts := c10Syntaxes[r.Intn(len(c10Syntaxes))]
-			plans[g] = append(plans[g], c18Op{TS: ts, Decode: r.Bool(), Img: r.Intn(4)})
+			plans[g] = append(plans[g], c18Op{TS: ts, Decode: r.Bool(), Img: r.Intn(len(images[ts]))})
 		}
 	}
 	recs := make([][]rec, c.G)
@@ -235,6 +290,14 @@ func StormMain(arg string) int {
 			}
 			for _, op := range plans[g] {
 				im := images[op.TS][op.Img]
+				if im.Foreign != nil {
+					op.Decode = true
+					enter(op.TS)
+					d := c18Call(codecs[op.TS], im, im.Foreign, true, nil)
+					leave(op.TS)
+					recs[g] = append(recs[g], rec{op: op, dec: d})
+					continue
+				}
 				enter(op.TS)
 				e := c18Call(codecs[op.TS], im, nil, false, paramsFor(op.TS))
 				leave(op.TS)
@@ -275,6 +338,10 @@ func StormMain(arg string) int {
 			res.Ops++
 			key := fmt.Sprintf("%s/%d", rc.op.TS, rc.op.Img)
 			se, ok := soloEnc[key]
+			if foreign := images[rc.op.TS][rc.op.Img].Foreign; foreign != nil {
+				// foreign stream: the operation was a Decode of it
+				se, ok = callResult{out: foreign}, true
+			}
 			if !ok {
 				var p dcodec.Parameters
 				if c.Params != "nil" {
@@ -283,7 +350,7 @@ func StormMain(arg string) int {
 				se = c18Call(codecs[rc.op.TS], images[rc.op.TS][rc.op.Img], nil, false, p)
 				soloEnc[key] = se
 			}
-			if se.err != rc.enc.err || !bytes.Equal(se.out, rc.enc.out) {
+			if images[rc.op.TS][rc.op.Img].Foreign == nil && (se.err != rc.enc.err || !bytes.Equal(se.out, rc.enc.out)) {
 				if len(res.Mismatches) < 20 {
 					res.Mismatches = append(res.Mismatches, fmt.Sprintf("goroutine %d op %d: Encode %s image %d under concurrency returned err=%q len=%d, alone err=%q len=%d (first diff %d)", g, i, rc.op.TS, rc.op.Img, rc.enc.err, len(rc.enc.out), se.err, len(se.out), firstDiff(se.out, rc.enc.out)))
 				}
